@@ -76,6 +76,9 @@ def run(check, prog):
     tc = Canon(trig_expand=True)
     c05.mielens_rotation(check, prog, tc)
     c05.lens_rotation(check, prog, tc)
+    # linearity in the polarisation: a theory written for one polarisation must
+    # refuse the others, not answer them with the pinned field
+    c05.pin_exact(check, prog)
 
 
 def superposition(check, prog):
